@@ -21,8 +21,10 @@ func (c *cctx) pemCalls(name string, doc []byte) {
 	c.step("pem/utils doc=" + name + " raw=" + c.x(doc))
 	var certs []*x509.Certificate
 	c.call("pem.DecodePEMCertificates", kv("pem", doc), func() error {
-		var err error
-		certs, err = kpem.DecodePEMCertificates(clone(doc))
+		cs, err := kpem.DecodePEMCertificates(clone(doc))
+		if err == nil {
+			certs = cs
+		}
 		return err
 	})
 	c.call("pem.DecodePEMCertificatesChain", kv("pem", doc), func() error {
@@ -31,8 +33,10 @@ func (c *cctx) pemCalls(name string, doc []byte) {
 	})
 	var signer crypto.Signer
 	c.call("pem.DecodePEMPrivateKey", kv("pem", doc), func() error {
-		var err error
-		signer, err = kpem.DecodePEMPrivateKey(clone(doc))
+		k, err := kpem.DecodePEMPrivateKey(clone(doc))
+		if err == nil { // with an error the other result is unspecified (kit returns a typed nil pointer)
+			signer = k
+		}
 		return err
 	})
 	s := string(doc)
@@ -84,9 +88,13 @@ func runPEMTruncate(c *cctx, k int) {
 	})
 }
 
-var (
-	pemFile string
-)
+var pemFile string // a real PEM file for utils.GetPEM, created on first use under VERIF_SCRATCH
+
+func cleanupScratch() {
+	if pemFile != "" {
+		os.RemoveAll(filepath.Dir(pemFile))
+	}
+}
 
 func runPEMGen(c *cctx, k int) {
 	rng := c.rng
@@ -104,9 +112,10 @@ func runPEMGen(c *cctx, k int) {
 		c.pemCalls("mutant of "+f.name, m)
 	}
 	// typed inputs of EncodePrivateKey / PublicKeysEqual: every kind of key Go
-	// can produce, and values that are not keys at all
+	// can produce, and values that are not keys at all (no zero-value key
+	// structs behind pointers: no parser produces them, they are not input)
 	if k%5 == 0 {
-		notKeys := []any{nil, "key", 42, []byte("key"), struct{}{}, *fx.rsa["rsa1024"], fx.ec["ec256"].PublicKey, rsa.PublicKey{}, &rsa.PublicKey{}, &ecdsa.PublicKey{}, fx.ed.Public(), fx.ed[:5], []any{}}
+		notKeys := []any{nil, "key", 42, []byte("key"), struct{}{}, *fx.rsa["rsa1024"], fx.ec["ec256"].PublicKey, rsa.PublicKey{}, ecdsa.PublicKey{}, fx.ed.Public(), fx.ed[:5], []any{}}
 		var a, b any
 		if rng.Bool() {
 			a = fx.pubs[rng.Intn(len(fx.pubs))]
